@@ -220,8 +220,13 @@ func genTrace(r *hx.Rng, eng string, n int, small bool) trace {
 			if r.Chance(0.1) && len(made[s]) > 0 {
 				k = made[s][r.Pick(len(made[s]))] // overwrite an existing checkpoint name
 			}
-			if small && r.Chance(0.5) {
-				tr.ops = append(tr.ops, op{kind: "S", s: s, i: uint64(r.Pick(int(idx[s]) + 3))})
+			if small && r.Chance(0.7) {
+				// the latest snapshot index recorded so far: without it nothing is ever purged
+				li := uint64(r.Pick(int(idx[s]) + 3))
+				if r.Chance(0.5) {
+					li = idx[s] + uint64(r.Pick(50))
+				}
+				tr.ops = append(tr.ops, op{kind: "S", s: s, i: li})
 			}
 			tr.ops = append(tr.ops, op{kind: "B", s: s, t: k.t, i: k.i})
 			made[s] = append(made[s], k)
@@ -250,6 +255,9 @@ func genTrace(r *hx.Rng, eng string, n int, small bool) trace {
 		case c < 94:
 			tr.ops = append(tr.ops, op{kind: "X", s: s})
 		case c < 97:
+			if eng == "mem" {
+				continue // the mem engine keeps nothing across a reopen (only a restore writes its data file)
+			}
 			tr.ops = append(tr.ops, op{kind: "Z", s: s})
 		default:
 			tr.ops = append(tr.ops, op{kind: "S", s: s, i: uint64(r.Pick(60))})
